@@ -56,7 +56,7 @@ class ZA:
         # vocabulary guard: the locals the C01-C07 rules name literally
         q.expect_locals(self.mod, self.S_send, ['msg_id', 'balanced', 'balance', 'clients', 'do_send', 'do_hello', 'outputs', 'topicmsgs', 'state', 'timeout', 'push'])
         q.expect_locals(self.mod, self.S_poll, ['ret', 'prev_id', 'ephemeral', 'full_id', 'client_id', 't_min', 'out_do_send', 'out_nrequested', 'requested', 't_last', 'pull'])
-        q.expect_locals(self.mod, self.S_maybe, ['ret', 'pubs', 'pub_clients', 'env', 'msg_topics', 'out_do_send', 'out_nrequested', 'out_pull'])
+        q.expect_locals(self.mod, self.S_maybe, ['ret', 'pubs', 'pub_clients', 'env', 'msg_topics', 'out_do_send', 'out_pull'])
         q.expect_locals(self.mod, self.R_recv, ['min_recv_id', 'balanced', 'balance', 'got_all', 'senders', 'sendervs', 'poller', 'data', 'recvd', 'state', 'timeout'])
         q.expect_locals(self.mod, self.R_once, ['socks', 'sender', 'sender_eph', 'topic', 'msg', 'msg_balanced', 'res', 'got', 'got_all_synced', 'got_any_complete', 'got_any_partial', 'recvd'])
         q.expect_locals(self.mod, self.R_req, ['msg_req', 'sender'])
